@@ -13,8 +13,8 @@ for c in $checks; do
   s=$(date +%s)
   o=$(cd /verif && VERIF_NO_EVIDENCE=1 ./check.sh $c quick 2>&1); rc=$?
   e=$(date +%s)
-  sigs=$(echo "$o" | grep -E "^violation sig=" | sed 's/ cases=.*//; s/violation sig=//' | cut -c1-110 | tr '\n' ';')
-  [ -z "$sigs" ] && sigs=$(echo "$o" | grep -E "VIOLATION|regression|HARNESS" | head -2 | cut -c1-140 | tr '\n' ';')
+  sigs=$(echo "$o" | grep -a -E "^violation sig=" | sed 's/ cases=.*//; s/violation sig=//' | cut -c1-110 | tr '\n' ';')
+  [ -z "$sigs" ] && sigs=$(echo "$o" | grep -a -E "VIOLATION|regression|HARNESS" | head -2 | cut -c1-140 | tr '\n' ';')
   echo "SEEDED $name check $c quick rc=$rc $((e-s))s $sigs"
   res="$res{\"check\":\"$c\",\"tier\":\"quick\",\"exit\":$rc,\"signatures\":\"$(echo $sigs | sed 's/"/\\"/g')\"},"
 done
